@@ -586,6 +586,43 @@ def self_test(run):
     return res
 
 
+APA_OBLIGATIONS = [("O1 Init => IndInv", ["--init=Init", "--inv=IndInv", "--length=0"]),
+                   ("O2 IndInv /\\ Next => IndInv' (heap and cache in step; any frames, stamps, window, history length)",
+                    ["--init=IndInit", "--inv=IndInv", "--length=1"]),
+                   ("O3 IndInv /\\ Next => StepRules (a group leaves whole, once, only when due; joining never moves an expiry)",
+                    ["--init=IndInit", "--inv=StepRules", "--length=1"])]
+
+
+def apalache(run, per_timeout=120):
+    """Inductive invariant of the cache/heap core (spec/apa/Dedup_apa.tla) for unbounded frames, stamps, window and
+    history length (<= 5 simultaneously open groups).  Informative, never a verdict: a failure or timeout is a note."""
+    import shutil
+    spec = os.path.join(core.SPEC, "apa", "Dedup_apa.tla")
+    res = {"tool": "apalache-mc check", "spec": "spec/apa/Dedup_apa.tla", "obligations": len(APA_OBLIGATIONS),
+           "discharged": 0, "results": [],
+           "role": "informative; TLC (MC_Dedup) covers 3 frames x 5-6 stamps x histories <= 4-6, this covers any frames, "
+                   "stamps, window and history length with at most 5 groups open at once"}
+    if shutil.which("apalache-mc") is None:
+        res["note"] = "apalache-mc not installed"
+        return res
+    t0 = time.time()
+    out_dir = os.path.join(run.work, "apalache")
+    for name, args in APA_OBLIGATIONS:
+        try:
+            p = core.sh(["apalache-mc", "check"] + args + ["--out-dir=" + out_dir, spec], cwd=run.work,
+                        timeout=per_timeout, check=False)
+            ok = p.returncode == 0 and "EXITCODE: OK" in (p.stdout or "")
+            res["results"].append({"obligation": name, "discharged": ok,
+                                   "outcome": "NoError" if ok else (p.stdout or "")[-300:]})
+            res["discharged"] += int(ok)
+        except core.ToolError as e:
+            res["results"].append({"obligation": name, "discharged": False, "outcome": str(e)[:200]})
+    res["wall_s"] = round(time.time() - t0, 1)
+    if res["discharged"] != res["obligations"]:
+        res["note"] = "not all obligations discharged (tool failure, timeout or a genuine counterexample: see results)"
+    return res
+
+
 def check(run):
     thorough = run.tier == "thorough"
     procs = 8 if thorough else 4
@@ -620,8 +657,9 @@ def check(run):
     # phases 2 and 3: M in the background while the real code replays the scenarios, batch by
     # batch, each batch validated by Trace_Dedup
     samples = []
-    with cf.ThreadPoolExecutor(max_workers=1) as bg:
+    with cf.ThreadPoolExecutor(max_workers=2) as bg:
         f_mc = bg.submit(model_check, run, thorough)
+        f_apa = bg.submit(apalache, run)
         selftest = self_test(run)
         bp = {"replays": 0, "identical_to_validated_recording": 0, "validated_separately": 0, "rejected": 0,
               "max_records_at_one_arrival": 0, "arrivals_closing_ge_3cap_groups": 0}
@@ -646,7 +684,16 @@ def check(run):
         def special_bursts(rp):
             process_burst(run, special, rp, [3, 8, 64, 0], procs, qb, "special")
 
-        rp = process(run, special, procs, stats, "special", meanwhile=[special_tool, special_caps, special_bursts])
+        # arrivals carrying several receptions (InsertMulti): variants of the long / attack histories and of
+        # a seeded sample of the short ones
+        mrng = random.Random(run.seed + 77)
+        mstats = Stats()
+
+        def special_multi(rp):
+            process(run, [multify(sc, mrng) for sc in special], procs, mstats, "multi.special")
+
+        rp = process(run, special, procs, stats, "special",
+                     meanwhile=[special_tool, special_caps, special_bursts, special_multi])
         if bp["arrivals_closing_ge_3cap_groups"] < 10:
             raise core.ToolError("back-pressure scenarios lost their teeth: no arrival closes >= 3*cap groups")
         samples.append({"tag": special[0]["tag"], "w_ms": special[0]["w"], "epoch_s": special[0]["epoch"],
@@ -655,13 +702,6 @@ def check(run):
         samples.append({"tag": special[-1]["tag"], "w_ms": special[-1]["w"], "epoch_s": special[-1]["epoch"],
                         "arrivals[frame,tick_1/8ms,receiver]": [list(a) for a in special[-1]["arr"]],
                         "code_emitted": rp[-1]["out"] if rp[-1] else None})
-        # arrivals carrying several receptions (InsertMulti): variants of the long / attack histories and of
-        # a seeded sample of the short ones
-        mrng = random.Random(run.seed + 77)
-        multis = [multify(sc, mrng) for sc in special]
-        mstats = Stats()
-        process(run, multis, procs, mstats, "multi.special")
-        n_multi_short = 0
         BATCH = 250000
         for c in fam:
             lines = [ln for ln in gen_out[c].out.splitlines() if ln.startswith('"{')]
@@ -695,6 +735,7 @@ def check(run):
                                     "code_emitted": rp[k]["out"] if rp[k] else None})
                 del batch, rp
         mc_info = f_mc.result()
+        apa_info = f_apa.result()
         core.log(f"M done at {time.time() - run.t0:.1f}s")
 
     run.cov.update({
@@ -716,6 +757,7 @@ def check(run):
         "rejected_scenarios": stats.rejected,
         "generated": gen_counts,
         "model_checking": mc_info,
+        "apalache": apa_info,
         "spec_mutants_refuted": att_info,
         "binding_self_test": selftest,
         "multi_reception_arrivals": {
